@@ -180,7 +180,7 @@ def _g_memory(rep):
     rep.floor("R-C03-guard", 18)
     rep.floor("R-C03-kernel-bounds", 7)
     rep.floor("R-C03-fft-capacity", 5)
-    rep.floor("R-C03-panic-sites", 21)
+    rep.floor("R-C03-panic-sites", 16)     # 2x on the reviewed tree; the five debug_asserts of the process bodies may legitimately go
     rep.floor("R-C03-validate-exact", 2)
     rep.clause("R-C03-* (memory safety)", "per-channel indexing, output writes bounded by the validated size, buffer allocations, polynomial windows, kernel guards and loads, FFT buffer "
                                          "capacities, the reviewed panic-site table (shared with C03; the rules carrying C03's recorded findings are not included)")
